@@ -141,3 +141,23 @@ func verifStubNewLocation(f *fs.File, i bytes.Index) Location {
 	}
 	return Location{file: f, index: i, line: 1}
 }
+
+// VerifH_LocationIndependent (C02, C03, C16): the location of an error in one
+// file does not depend on any file processed before - in particular not on an
+// earlier file with the same name and the same size (an edited file, or
+// another project's file, processed in the same process).
+func VerifH_LocationIndependent() {
+	n := verifrt.Choice("n", verifrt.Bound("N")) + 1
+	c1 := verifrt.Bytes("c1", n)
+	c2 := verifrt.Bytes("c2", n)
+	p1 := verifrt.Choice("p1", n+1)
+	p2 := verifrt.Choice("p2", n+1)
+	first := NewLocation(fs.NewFile("same.jst", c1), bytes.Index(p1))
+	_ = first
+	loc := NewLocation(fs.NewFile("same.jst", c2), bytes.Index(p2))
+	nl := refNewline(c2)
+	verifrt.Assert("C02.loc.independent-line", int(loc.Line()) == refLine(c2, p2, nl))
+	raw := refQuote(c2, p2, nl)
+	verifrt.Assert("C02.loc.independent-quote", refTrimLeft(loc.Quote()) == refTrimLeft(raw))
+	verifrt.Reach("C02.loc.independent.second-line", loc.Line() >= 2)
+}
